@@ -179,3 +179,33 @@ func Harness_C06_q_reader_chunking() {
 	verif.Assert(verif.Eq(got, payload), "chunked-source-roundtrip")
 	verif.Reach("end")
 }
+
+// Every payload length 0..4097 (the property's exhaustive range), one message, both
+// directions: wire = reference framing, round trip identical.
+func Harness_C06_q_every_length() {
+	secret, raw := c06Secret()
+	acc, _ := NewSecureSessionFromSharedKey(secret)
+	ctl, _ := NewSecureClientSessionFromSharedKey(secret)
+	sender, receiver := acc, ctl
+	info := "Control-Read-Encryption-Key"
+	if verif.Choice("direction", 2) == 1 {
+		sender, receiver = ctl, acc
+		info = "Control-Write-Encryption-Key"
+	}
+	key := c06RefKey(raw, info)
+	n := verif.Choice("len", 4098)
+	payload := verif.Bytes("p", n)
+	enc, err := sender.Encrypt(bytes.NewBuffer(append([]byte{}, payload...)))
+	verif.Assert(err == nil, "encrypt-ok")
+	wire, _ := ioutil.ReadAll(enc)
+	ref, _ := c06RefFrames(key, 0, payload)
+	verif.Assert(verif.Eq(wire, ref), "wire-equals-reference-framing")
+	dec, err := receiver.Decrypt(bytes.NewBuffer(wire))
+	verif.Assert(err == nil, "decrypt-ok")
+	if err != nil {
+		return
+	}
+	got, _ := ioutil.ReadAll(dec)
+	verif.Assert(verif.Eq(got, payload), "roundtrip-identical")
+	verif.Reach("end")
+}
